@@ -132,7 +132,7 @@ Proof.
   intros Fr HL HD. constructor; cbn; try apply Fr.
   - intros k Hk. rewrite HL by done. by apply (fr_lnk _ _ _ _ Fr).
   - intros k Hk. rewrite HD by done. by apply (fr_dat _ _ _ _ Fr).
-  - intros k Hk. destruct (fr_closed _ _ _ _ Fr k Hk) as (C1 & C2 & C3 & C4).
+  - intros k Hk. cbn in Hk. destruct (fr_closed _ _ _ _ Fr k Hk) as (C1 & C2 & C3 & C4).
     assert (Hkn : k ∉ ns).
     { intros Hin. destruct (fr_new _ _ _ _ Fr k) as (_ & ? & _); [apply elem_of_app; by left|lia]. }
     split_and!; [done| | |done].
@@ -172,6 +172,19 @@ Section Alloc.
     cJSON_New_Item oracle h = Ret (None, bump h).
   Proof. intros Ho. unfold cJSON_New_Item, alloc_node. by rewrite Ho. Qed.
 
+  Lemma run_alloc_bytes_ok h init : oracle (h_req h) = false ->
+    alloc_bytes oracle init h = Ret (Some (h_next h), alloc_str_h h init).
+  Proof. intros Ho. unfold alloc_bytes. by rewrite Ho. Qed.
+  Lemma run_st_str h b old s :
+    b ∈ h_live h -> h_str h !! b = Some old -> h_own h !! b = Some Lib -> length s = length old ->
+    st_str (Some b) s h =
+    Ret (tt, mkHeap (h_lnk h) (h_dat h) (<[b := s]> (h_str h)) (h_own h) (h_live h) (h_next h) (h_req h)
+                    (h_hooks h) (h_trace h)).
+  Proof.
+    intros H1 H2 H3 H4. unfold st_str, bindM, chk. rewrite decide_True by done. rewrite H2, H3.
+    by rewrite (proj2 (Nat.eqb_eq _ _) H4).
+  Qed.
+
   Lemma run_strdup_ok h b s : str_at h b s -> existsb (Z.eqb 0) s = true -> oracle (h_req h) = false ->
     cJSON_strdup oracle (Some b) h = Ret (Some (h_next h), alloc_str_h h (cstr s ++ [0%Z])).
   Proof.
@@ -179,11 +192,18 @@ Section Alloc.
     assert (Hld : ld_cstr (Some b) h = Ret (cstr s, h)).
     { unfold ld_cstr, ld_str, bindM, chk. rewrite decide_True by done. rewrite Hs, Hz. reflexivity. }
     rewrite (bindM_Ret _ _ _ _ _ Hld).
-    unfold bindM at 1. unfold alloc_bytes. rewrite Ho. cbn [is_null].
-    unfold st_str, bindM, chk. cbn. rewrite decide_True by set_solver.
-    rewrite !lookup_insert. rewrite app_length, repeat_length. cbn [length].
-    rewrite Nat.add_1_r, Nat.eqb_refl. unfold ret, alloc_str_h. do 3 f_equal.
-    by rewrite insert_insert.
+    rewrite (bindM_Ret _ _ _ _ _ (run_alloc_bytes_ok _ _ Ho)). cbn [is_null].
+    set (h1 := alloc_str_h h (repeat 0%Z (S (length (cstr s))))).
+    assert (Hst : st_str (Some (h_next h)) (cstr s ++ [0%Z]) h1 =
+                  Ret (tt, mkHeap (h_lnk h1) (h_dat h1) (<[h_next h := cstr s ++ [0%Z]]> (h_str h1)) (h_own h1)
+                                  (h_live h1) (h_next h1) (h_req h1) (h_hooks h1) (h_trace h1))).
+    { apply (run_st_str h1 (h_next h) (repeat 0%Z (S (length (cstr s))))).
+      - cbn. set_solver.
+      - cbn. by rewrite lookup_insert.
+      - cbn. by rewrite lookup_insert.
+      - rewrite app_length, repeat_length. cbn. lia. }
+    rewrite (bindM_Ret _ _ _ _ _ Hst).
+    unfold ret, alloc_str_h, h1. cbn. do 3 f_equal. by rewrite insert_insert.
   Qed.
   Lemma run_strdup_fail h b s : str_at h b s -> existsb (Z.eqb 0) s = true -> oracle (h_req h) = true ->
     cJSON_strdup oracle (Some b) h = Ret (None, bump h).
@@ -209,9 +229,9 @@ Proof.
   - intros k Hk. apply not_elem_of_cons in Hk as [Hk _]. by rewrite lookup_insert_ne.
   - intros k Hk _. apply not_elem_of_cons in Hk as [Hk _]. set_solver.
   - intros k Hk. rewrite lookup_insert_ne; [done|]. lia.
-  - intros b Hb. rewrite app_nil_r in Hb. apply elem_of_list_singleton in Hb as ->.
+  - intros b Hb. cbn in Hb. apply elem_of_list_singleton in Hb as ->.
     split_and!; [lia|lia|set_solver|by rewrite lookup_insert].
-  - intros k Hk. destruct (C k) as (C1 & C2 & C3 & C4); [lia|].
+  - intros k Hk. cbn in Hk. destruct (C k) as (C1 & C2 & C3 & C4); [lia|]. cbn.
     split_and!; [|rewrite lookup_insert_ne; [done|lia]|rewrite lookup_insert_ne; [done|lia]|done].
     intros Hin. apply elem_of_union in Hin as [Hin|Hin]; [|done]. apply elem_of_singleton in Hin. lia.
 Qed.
@@ -224,7 +244,7 @@ Proof.
   - intros k Hk. rewrite lookup_insert_ne; [done|]. lia.
   - intros b Hb. cbn in Hb. apply elem_of_list_singleton in Hb as ->.
     split_and!; [lia|lia|set_solver|by rewrite lookup_insert].
-  - intros k Hk. destruct (C k) as (C1 & C2 & C3 & C4); [lia|].
+  - intros k Hk. cbn in Hk. destruct (C k) as (C1 & C2 & C3 & C4); [lia|]. cbn.
     split_and!; [|done|done|rewrite lookup_insert_ne; [done|lia]].
     intros Hin. apply elem_of_union in Hin as [Hin|Hin]; [|done]. apply elem_of_singleton in Hin. lia.
 Qed.
